@@ -29,6 +29,11 @@ MPI_FLAGS = ['-I/usr/lib/x86_64-linux-gnu/openmpi/include', '-I/usr/lib/x86_64-l
 ALL_MODES = list(range(32))
 # quick: every handler method, both inline bits in both polarities, priority on/off, the default (30)
 QUICK_MODES = [0, 3, 8, 13, 16, 23, 24, 27, 30]
+# WAITQ (pika::wait()/shutdown against slow continuations): (completion mode, dedicated pool, last round is a shutdown)
+# quick: the default mode (30) with wait and with shutdown, the other shapes of the continuation method (inline
+# request 27, non-inline completion 24, non-inline request 26), new_task (19 inline / 16 transfers, shutdown),
+# suspend_resume (11), yield_while (3); (30, pool): the same against poll_singlethreaded on a dedicated pool
+WAITQ_QUICK = [(30, 0, 0), (27, 0, 0), (30, 0, 1), (24, 0, 0), (19, 0, 0), (16, 0, 1), (11, 0, 0), (3, 0, 0), (30, 1, 0), (26, 0, 0)]
 
 
 def fields(line, skip):
@@ -93,6 +98,10 @@ def run(ctx):
     r.rule = ('PROC: one process per (completion mode, pool) pair: N self-addressed Irecv/Isend pairs (1..70000 ints, patterned payload) '
               'through transform_mpi with counting receivers, started from concurrent tasks in seeded random order; a third of the pairs is '
               '"gated" (the send is issued 40 ms later by another thread); pika::wait() is called while they are in flight. '
+              'WAITQ: one process per (completion mode, pool, wait|shutdown): rounds of N+1 self-addressed pairs whose transform_mpi sender is followed by a '
+              'then-stage that spins 3..7 ms (seeded) before it records completion; N+1 requests outstanding at once, partners posted in clustered bursts by tasks '
+              'that all exist before the main thread calls pika::wait() (last round: finalize/stop); the per-request ledger (posted / entered / recorded) is read '
+              'right after the call returns; every running continuation compares the global activity count with the number of running continuations. '
               'ERR: MPI_ERRORS_RETURN + MPI_DATATYPE_NULL. TRACE: generalized requests completed by the harness, hook trace replayed by the '
               'extracted model step by step; STRACE: the same for poll_singlethreaded (dedicated pool, registrations as tasks on the pool). '
               'MTPOOL: start_polling(no_handler, name of a user pool with W = 1..3 workers), transform_mpi over generalized requests, phase 1 = the two-thread '
@@ -175,6 +184,102 @@ def run(ctx):
             if not any('shutdown=ok' in x for x in lines):
                 r.hits.append(Hit('monitor', 'C20:proc:shutdown', 'PROC %s: no orderly shutdown' % tag, rep))
             r.sample({'proc': main[0]}, cap=2)
+
+    # ------------------------------------------------------------ WAITQ: wait()/shutdown vs. slow continuations
+    wq_cfgs = list(WAITQ_QUICK)
+    if not quick:
+        wq_cfgs = [(m, 0, f) for m in ALL_MODES for f in (0, 1)] + [(m, 1, f) for m in (30, 26, 24, 18, 16, 10, 8) for f in (0, 1)]
+    wq_n, wq_rounds = (10, 5) if quick else (16, 12)
+    wq_loop = {1: 0, 2: 0}
+    wq_maxout, wq_polled, wq_multi_cb = 0, 0, 0
+    nhang = 0
+    for mode, pool, fin in wq_cfgs:
+        if nhang >= 2:
+            break
+        args = [h, 'waitq', str(mode), str(pool), str(wq_n), str(wq_rounds), str(ctx.seed), str(fin)]
+        rc, out = sh(args, timeout=200, env=env)
+        lines = [x for x in out.split('\n') if x.startswith('OUT ')]
+        r.evaluations += 1
+        r.count('waitq:method=%d' % (mode & 56))
+        r.count('waitq:pool=%d' % pool)
+        r.count('waitq:final=%s' % ('shutdown' if fin else 'wait'))
+        rep = {'harness': 'c20_mpi', 'args': args[1:], 'output': [x[:400] for x in lines]}
+        tag = 'm%dp%df%d' % (mode, pool, fin)
+        # the ledger as it was when wait() / stop() returned (one line per round), evaluated before anything else:
+        # a later hang or crash must not hide it
+        for x in lines:
+            if ' kind=' not in x:
+                continue
+            f = fields(x, 3)
+            what = 'shutdown' if f['kind'] == 'shutdown' else 'wait'
+            call = 'pika::finalize(); pika::stop()' if what == 'shutdown' else 'pika::wait()'
+            if int(f['undelivered']) > 0:
+                r.hits.append(Hit('monitor', 'C20:%s:returned_with_undelivered_completions' % what,
+                                  'WAITQ %s round %s: %s returned while %s request(s) that had been posted were still in flight / their '
+                                  'continuation had not recorded completion (of %s operations whose posting tasks all existed before the call: '
+                                  'posted=%s, continuation entered=%s, completion recorded=%s; Testsome/Testany had reported %s requests complete, '
+                                  'activity count read after the call=%s)'
+                                  % (tag, x.split(' ')[2].split('.r')[-1], call, f['undelivered'], f['expected'], f['posted'], f['entered'],
+                                     f['recorded'], f['tested'], f['act_after']), rep))
+            if int(f['unposted']) > 0:
+                r.hits.append(Hit('monitor', 'C20:%s:returned_with_unposted_requests' % what,
+                                  'WAITQ %s round %s: %s returned while %s operation(s) whose posting task existed before the call had not even '
+                                  'made their MPI call (expected=%s posted=%s recorded=%s)'
+                                  % (tag, x.split(' ')[2].split('.r')[-1], call, f['unposted'], f['expected'], f['posted'], f['recorded']), rep))
+        summ = [x for x in lines if ' summary ' in x]
+        if any('hang=1' in x for x in lines) or rc == 4 or rc == 124:
+            r.hits.append(Hit('monitor', 'C20:waitq:hang', 'WAITQ %s: a posted request never had its continuation run, or wait()/stop_polling/shutdown did not '
+                              'return: %s' % (tag, ' | '.join(lines)[-400:]), rep))
+            nhang += 1
+            continue
+        if rc != 0 or not summ:
+            r.hits.append(Hit('monitor', 'C20:waitq:crash', 'WAITQ %s: harness crashed rc=%d: %s' % (tag, rc, out[-600:]), rep))
+            continue
+        f = fields(summ[0], 3)
+        if int(f['multi']) > 0:
+            r.hits.append(Hit('monitor', 'C20:waitq:multiple_signals', 'WAITQ %s: %s operations ran their continuation / signalled their receiver more than once' % (tag, f['multi']), rep))
+        if int(f['lost']) > 0:
+            r.hits.append(Hit('monitor', 'C20:waitq:lost', 'WAITQ %s: %s receivers were never signalled' % (tag, f['lost']), rep))
+        if int(f['errs']) > 0:
+            r.hits.append(Hit('monitor', 'C20:waitq:unexpected_error', 'WAITQ %s: %s error/stopped signals on successful transfers' % (tag, f['errs']), rep))
+        if int(f['premature']) > 0:
+            r.hits.append(Hit('monitor', 'C20:waitq:premature', 'WAITQ %s: %s receive continuations ran before the matching send was even posted' % (tag, f['premature']), rep))
+        if int(f['badsum']) > 0:
+            r.hits.append(Hit('monitor', 'C20:waitq:payload', 'WAITQ %s: %s receive continuations saw an incomplete payload' % (tag, f['badsum']), rep))
+        if int(f['order_bad']) > 0:
+            r.hits.append(Hit('monitor', 'C20:waitq:continuation_order', 'WAITQ %s: %s continuations were entered twice or before their MPI call was made' % (tag, f['order_bad']), rep))
+        if int(f['min_slack']) < 0:
+            r.hits.append(Hit('monitor', 'C20:activity:count_below_running_continuations',
+                              'WAITQ %s: a running continuation read the global activity count (what pika::wait() and shutdown wait on) and found it %d below the number '
+                              'of continuations of posted requests running at that moment (count == 0 seen %s times from inside a continuation): such a request is no '
+                              'longer counted although its continuation has not finished' % (tag, -int(f['min_slack']), f['zero_seen']), rep))
+        if int(f['work_after']) != 0:
+            r.hits.append(Hit('monitor', 'C20:waitq:work_count', 'WAITQ %s: get_work_count() = %s after everything completed' % (tag, f['work_after']), rep))
+        if not any('shutdown=ok' in x for x in lines):
+            r.hits.append(Hit('monitor', 'C20:waitq:shutdown', 'WAITQ %s: no orderly shutdown' % tag, rep))
+        polled = (mode & 56) != 0
+        if polled and int(f['reg']) > 0:
+            r.nontrivial(' '.join(args[1:]))
+            wq_polled += 1
+            wq_maxout = max(wq_maxout, int(f['max_out']))
+        if polled and not pool:
+            wq_loop[1] += int(f['loop1'])
+            wq_loop[2] += int(f['loop2'])
+            wq_multi_cb = max(wq_multi_cb, int(f['cb_threads']))
+        if polled and pool and (mode & 1) == 0:
+            r.extra['waitq_single_hits'] = r.extra.get('waitq_single_hits', 0) + int(f['single_hits'])
+        r.sample({'waitq': summ[0][:500]}, cap=2)
+    if wq_polled and nhang == 0:
+        # the scenario must really be what it claims (aggregated over the run, so scheduling luck of one process does not matter)
+        if wq_loop[1] == 0 or wq_loop[2] == 0:
+            r.hits.append(Hit('tie', 'C20:waitq:drain_loop_not_exercised', 'WAITQ: callbacks taken from the ready queue by the first drain loop of poll_multithreaded: %d, '
+                              'by the second: %d (hook 2006/2012) - one of them never ran' % (wq_loop[1], wq_loop[2]), {'configs': wq_cfgs}))
+        if wq_maxout < 8:
+            r.hits.append(Hit('tie', 'C20:waitq:not_outstanding', 'WAITQ: at most %d requests were registered with the poller at once (>= 8 intended)' % wq_maxout, {'configs': wq_cfgs}))
+        if wq_multi_cb < 2:
+            r.hits.append(Hit('tie', 'C20:waitq:one_polling_worker', 'WAITQ: callbacks were invoked by %d OS thread(s) only in the runs without a polling pool' % wq_multi_cb, {'configs': wq_cfgs}))
+    r.extra['waitq'] = {'configs': len(wq_cfgs), 'pairs_per_round': wq_n + 1, 'rounds': wq_rounds, 'first_loop_callbacks': wq_loop[1],
+                        'second_loop_callbacks': wq_loop[2], 'max_outstanding': wq_maxout, 'callback_threads': wq_multi_cb}
 
     # ------------------------------------------------------------ ERR (F17)
     for mode in modes:
